@@ -88,6 +88,15 @@ def sig(t=0, **kw):
     return SignalState(**base)
 
 
+def meta(k=1, order=False):
+    """meta information of an obstacle (free key / value tables); order=True builds the same tables with the keys inserted in another order"""
+    from commonroad.scenario.state import MetaInformationState
+    s_ = {"a": "b", "c": str(k)}
+    if order:
+        s_ = dict(reversed(list(s_.items())))
+    return MetaInformationState(meta_data_str=s_, meta_data_int={"k": k}, meta_data_float={"f": 0.5 * k}, meta_data_bool={"t": bool(k % 2)})
+
+
 def stopline(**kw):
     from commonroad.common.common_lanelet import StopLine, LineMarking
     d = dict(start=A(0, 0), end=A(0, 3), line_marking=LineMarking.SOLID, traffic_sign_ref={10}, traffic_light_ref={11})
@@ -352,14 +361,22 @@ def table():
     dyn_alts.update(prediction=[lambda: tpred(dx=EPS), lambda: tpred(dx=1.0), lambda: spred(), lambda: None],
                     external_dataset_id=[lambda: 5],
                     history=[lambda: [ks(-1)], lambda: [ks(-2), ks(-1, x=1.5)]], signal_history=[lambda: [sig(-1)]],
-                    center_lanelet_ids_history=[lambda: [{1}], lambda: [{1, 9}, {2}]], shape_lanelet_ids_history=[lambda: [{1}], lambda: [{1, 9}, {3}]])
+                    center_lanelet_ids_history=[lambda: [{1}], lambda: [{1, 9}, {2}]], shape_lanelet_ids_history=[lambda: [{1}], lambda: [{1, 9}, {3}]],
+                    initial_meta_information_state=[lambda: meta(3), lambda: None], meta_information_series=[lambda: [meta(1)], lambda: [meta(2), meta(1)]])
     T["DynamicObstacle"] = dict(cls=_E("commonroad.scenario.obstacle", "DynamicObstacle"),
                                 default=lambda: dict(obstacle_id=7, obstacle_type=ObstacleType.CAR, obstacle_shape=rect(c=(0, 0), o=0.0), initial_state=init_state()),
                                 full=mk_full(dict(obstacle_type=lambda: ObstacleType.CAR, obstacle_shape=lambda: rect(c=(0, 0), o=0.0), initial_state=init_state,
                                                   prediction=tpred, external_dataset_id=lambda: 4, history=lambda: [ks(-2), ks(-1)],
                                                   signal_history=lambda: [sig(-2), sig(-1)], center_lanelet_ids_history=lambda: [{1, 9}, {2}],
-                                                  shape_lanelet_ids_history=lambda: [{1, 9}, {2}])),
-                                alts=dyn_alts, perms=dict(obst_perms, center_lanelet_ids_history=[lambda: [{9, 1}, {2}]]), container=True)
+                                                  shape_lanelet_ids_history=lambda: [{1, 9}, {2}],
+                                                  initial_meta_information_state=lambda: meta(1), meta_information_series=lambda: [meta(1), meta(2)])),
+                                alts=dyn_alts, perms=dict(obst_perms, center_lanelet_ids_history=[lambda: [{9, 1}, {2}]],
+                                                          initial_meta_information_state=[lambda: meta(1, order=True)]), container=True)
+    T["MetaInformationState"] = dict(cls=_E("commonroad.scenario.state", "MetaInformationState"), default=lambda: dict(),
+                                     full=lambda: dict(meta_data_str={"a": "b", "c": "d"}, meta_data_int={"k": 1}, meta_data_float={"f": 0.5}, meta_data_bool={"t": True}),
+                                     alts=dict(meta_data_str=[lambda: {"a": "x", "c": "d"}, lambda: {"a": "b"}], meta_data_int=[lambda: {"k": 2}], meta_data_float=[lambda: {"f": 0.5 + EPS}, lambda: {"f": 1.5}],
+                                               meta_data_bool=[lambda: {"t": False}]),
+                                     perms=dict(meta_data_str=[lambda: {"c": "d", "a": "b"}]))
     T["PhantomObstacle"] = dict(cls=_E("commonroad.scenario.obstacle", "PhantomObstacle"), default=lambda: dict(obstacle_id=7),
                                 full=lambda: dict(obstacle_id=7, prediction=spred()),
                                 alts=dict(obstacle_id=[lambda: 8], prediction=[lambda: spred(EPS), lambda: spred(t0=2)]))
